@@ -2,9 +2,12 @@
 (* Judge for C11 and C14 over recordings of harness/cmd/lscoredrv.            *)
 EXTENDS LSCore, TraceKit
 
-TAddr == {"A", "B", "C"}
+\* "K1", "K2", ...: the chunks of large-batch puts (LSCore!PutBulk); a recording mentions them only in such histories
+TBulkMax == 160
+TAddr == {"A", "B", "C"} \cup {BulkName(i) : i \in 1..TBulkMax}
 TRoots == {"-", "A", "R"}
-Universe == {"A", "B", "C", "R"}
+\* every address the recording projects: "A", "B", "C", "R" and the bulk chunks of the history
+Universe(e) == DOMAIN e.st.per
 
 VARIABLES l, bad, prev, agree
 tvars == <<vars, l, bad, prev, agree>>
@@ -61,9 +64,9 @@ C14(e) ==
      Clause("C14:store_reopens_after_crash", e.reopened)
   \o (IF e.reopened
       THEN    Clause("C14:chunk_entirely_before_or_after",
-                     \A a \in Universe : e.st.per[a] = e.pre.per[a] \/ e.st.per[a] = e.post.per[a])
+                     \A a \in Universe(e) : e.st.per[a] = e.pre.per[a] \/ e.st.per[a] = e.post.per[a])
            \o Clause("C14:pin_count_before_or_after",
-                     \A a \in Universe : e.st.per[a][4] \in {e.pre.per[a][4], e.post.per[a][4]})
+                     \A a \in Universe(e) : e.st.per[a][4] \in {e.pre.per[a][4], e.post.per[a][4]})
            \o Clause("C14:counter_at_least_recomputed_total", e.st.gcsize >= e.st.gcsum)
       ELSE <<>>)
 
@@ -75,7 +78,7 @@ C13(e) == IF e.op = "crash" THEN <<>>
                       prev.gcsize = prev.gcsum => e.st.gcsize = e.st.gcsum)
 C12(e) == IF e.op # "gc" THEN <<>>
           ELSE    Clause("C12:gc_keeps_pinned_chunks",
-                         \A a \in Addr : (prev.per[a][4] > 0 /\ prev.per[a][1] # 0) => e.st.per[a][1] = prev.per[a][1])
+                         \A a \in Addr \cap DOMAIN prev.per : (prev.per[a][4] > 0 /\ prev.per[a][1] # 0) => e.st.per[a][1] = prev.per[a][1])
                \o Clause("C12:gc_changes_no_pin_count", PinSetT(e.st) = PinSetT(prev))
 
 TInit == /\ l = 1 /\ bad = <<>> /\ prev = [x |-> 0] /\ agree = TRUE
